@@ -1,6 +1,7 @@
 import DeriveExModel.Gen
 import DeriveExModel.L2
 import DeriveExModel.Shrink
+import Ext
 open DX
 
 def printCase (c : Case) : IO Unit := do
@@ -32,7 +33,9 @@ def family (name : String) (seed idx : Nat) : Option Case :=
   | "dump" => some (genItemCaseR cfgDump name seed idx)
   | "wild" => some (genItemCaseR cfgWild name seed idx)
   | "strip" => some (genItemCaseR cfgStrip name seed idx)
-  | "impl" => some (genImplCase name seed idx)
+  | "impl" =>
+    let c := genImplCase name seed idx
+    some (if idx % 6 == 4 then { c with item := c.item.withTrailing 3, tags := "trailing-commas" :: c.tags } else c)
   | "other" => some (genOtherCase name seed idx)
   | _ => none
 
@@ -42,8 +45,35 @@ def familyCount (name : String) : Option Nat :=
   | "cmp1all" => some (cmp1Count ((List.range 31).map (· + 1)))
   | _ => none
 
+/-- a case read from outside: the texts given to the real expander are the original ones, not the model's printing -/
+def printExtCase (c : Case) (atext : Option String) (itext : String) : IO Unit := do
+  let out ← IO.getStdout
+  let mut s := s!"CASE {c.id}\n"
+  match atext with
+  | some a => s := s ++ s!"ENTRY attr\nARGS {a}\n"
+  | none => s := s ++ "ENTRY derive\n"
+  s := s ++ s!"ITEM {itext}\n"
+  for seg in c.expand do
+    match seg.body with
+    | .toks ts => s := s ++ s!"SEG {seg.label} T\n{canon ts.strs}\n"
+    | .dump ts => s := s ++ s!"SEG {seg.label} DUMP\n{canon ts.strs}\n"
+    | .err => s := s ++ s!"SEG {seg.label} ERR\n"
+  s := s ++ "END\n"
+  out.putStr s
+
+partial def extLoop (h : IO.FS.Stream) (ok bad : Nat) : IO (Nat × Nat) := do
+  let line ← h.getLine
+  if line.isEmpty then return (ok, bad)
+  match (SExp.parse line).bind toExtCase with
+  | some (c, a, i) => printExtCase c a i; extLoop h (ok + 1) bad
+  | none => (← IO.getStderr).putStrLn s!"ext: unreadable case: {line.take 200}"; extLoop h ok (bad + 1)
+
 def main (args : List String) : IO UInt32 := do
   match args with
+  | ["ext"] =>
+    -- cases from outside the model's generators, one S-expression per line on stdin (xcheck ser)
+    let (_, bad) ← extLoop (← IO.getStdin) 0 0
+    pure (if bad == 0 then 0 else 3)
   | ["count", fam] =>
     match familyCount fam with
     | some n => IO.println n; pure 0
